@@ -17,6 +17,13 @@ def programs(t):
             ty = 'SNum<%d, %d, %s, %s>' % (d, e, r, o)
             lines.append('prog_machine<%s, %s, %s>("static_number<%d,%d,i8>");' % (ty, r, o, d, e))
             lines.append('prog_trees<%s, %s, %s>("static_number<%d,%d,i8>", 2, 8, 1);' % (ty, r, o, d, e))
+    # unsigned narrowest storage (results of - and unary - must still be exact: the intermediate types turn signed)
+    for (r, o) in ([('NEA', 'SAT'), ('NEG', 'THR')] if not t else [('NEA', 'SAT'), ('NEG', 'THR'), ('TIE', 'TRP')]):
+        lines.append('prog_machine<SInt<3, %s, %s, u8>, %s, %s>("static_integer<3,u8>");' % (r, o, r, o))
+        lines.append('prog_trees<SInt<3, %s, %s, u8>, %s, %s>("static_integer<3,u8>", 2, 8, 1);' % (r, o, r, o))
+        for d in ([16, 32, 64] if not t else [8, 16, 31, 32, 33, 63, 64]):
+            lines.append('prog_trees<SInt<%d, %s, %s, unsigned>, %s, %s>("static_integer<%d,unsigned>", 2, 0, %d);' % (d, r, o, r, o, d, 8 if d <= 16 else 16))
+        lines.append('prog_trees<SNum<32, -16, %s, %s, unsigned>, %s, %s>("static_number<32,-16,unsigned>", 2, 0, 16);' % (r, o, r, o))
     # storage boundaries (lattice leaves, depth 1-2)
     for (r, o) in ([('NEA', 'SAT'), ('NEG', 'THR')] if not t else [('NEA', 'SAT'), ('NEG', 'THR'), ('TIE', 'TRP'), ('NAT', 'SAT')]):
         for d in ([7, 16, 31, 63, 64, 100] if not t else [7, 8, 15, 16, 31, 32, 48, 63, 64, 80, 96, 100, 200]):  # products land on 14..400 digits incl. 128, 160, 192 (multiples of the limb width)
